@@ -52,7 +52,7 @@ def write_legacy_stats(path, s):
 def run(chk):
     chk.prove()
     r = gen.rng(chk.seed, "C18")
-    n_cases = 40 if chk.tier == "quick" else 300
+    n_cases = 40 if chk.tier == "quick" else 2000
     tmpd = tempfile.mkdtemp(prefix="c18_")
     atexit.register(shutil.rmtree, tmpd, ignore_errors=True)
     for i in range(n_cases):
